@@ -1,33 +1,60 @@
 """C10 — bitfield is observationally a set of enumerators."""
+import os
+
+from vlib import paths
 from vlib.runner import Batch
 
 ID = "C10"
 LEAN_PROPS = ["FcpptProofs.Props.C10"]
-HARNESS = {"src": "harness/c10.cpp"}
+# the instantiations of the real templates are split over four translation units (one per storage word type) so that
+# they compile in parallel; os.path.join(REPO, <absolute path>) is the absolute path, so they can be listed here
+HARNESS = {"src": "harness/c10.cpp",
+           "repo_srcs": [os.path.join(paths.ROOT, "harness", f"c10_w{w}.cpp") for w in (8, 16, 32, 64)],
+           "flags": ["-g1"]}
 TIE = "hand-written model (FcpptModel/Model/C10.lean) + differential correspondence against the real templates"
-RULE = ("pairs n w A: digest over all 2^n subsets B of the observations (| & ^ ~ is_subset_eq == != hash, assigning forms, "
-        "canonical rebuild through init) for subset A; exhaustive over all A for n in {1,3,5,8,9} x words {8,16,32,64} "
-        "(thorough; quick: all A for n<=5, every A for n=8,9 on two word sizes); n=17 and expression trees sampled. "
+RULE = ("pairs n w A: digest over all 2^n subsets B of the observations (members AND storage words of | & ^ ~, is_subset_eq == != , "
+        "exact hash values, assigning forms, the same object on both sides of every operator, operands unchanged, canonical "
+        "rebuild through init) for subset A; exhaustive over all A for n in {1,3,5,8,9} x words {8,16,32,64}. "
+        "bits n w A: every way of writing every single bit (set, operator[]=, copied/moved/re-bound proxy, |= e, | e) to true "
+        "and false, words after each, save-mutate-restore; all A for n <= 9, structured A for n in {17,33,64}. "
+        "n in {17,33,64}: all pairs of a structured family of subsets (empty, full, every single bit, every co-single bit, runs "
+        "ending at word boundaries, alternating) plus one-bit-difference pairs, random pairs. expr: all two-step programs over "
+        "the whole interface on small scopes, all raw one-byte arrays (dirty padding), random expression trees <= depth 6. "
         "An op is non-trivial if it is not the empty-set/empty-set pair; distinct = distinct op lines.")
 ASSUMPTIONS = [
     "storage word of the C++ unsigned type with w value bits = BitVec w",
-    "hash_combine and std::hash of a word are uninterpreted functions (theorems hold for any)",
+    "theorems: hash_combine and std::hash of a word are uninterpreted functions (hold for any); the driver runs the concrete "
+    "instance of this platform (fcppt::hash_combine on a 64-bit size_t, libstdc++'s identity hash of unsigned integers) so "
+    "hash values are compared exactly",
     "enumerator = its index (static_cast of the enum), enum_::size = fcppt_maximum + 1",
+    "raw arrays given to object(array_type const&) / written through array() have clean padding (Expr.Valid); with dirty "
+    "padding get/~/init are still right (not_any_array, init_spec) but == and hash see the padding — modelled and compared, "
+    "outside the property's statement",
 ]
-TRUSTED = ["harness/c10.cpp and the digest/line protocol (vh.hpp, Proto.lean)", "g++ 12 + ASan/UBSan as witness for memory safety of the instantiations"]
+TRUSTED = ["harness/c10.cpp, c10_iface.hpp, c10_inst.hpp, c10_w*.cpp and the digest/line protocol (vh.hpp, Proto.lean)",
+           "g++ 12 + ASan/UBSan as witness for memory safety of the instantiations"]
 
 SIZES = [1, 3, 5, 8, 9]
+BIG = [17, 33, 64]
 WORDS = [8, 16, 32, 64]
 
 
 def nontrivial(op, result):
     t = op.split()
+    if t[0] in ("mask", "test"):
+        return True
     return not (t[0] in ("pair", "pairs") and t[3] == "0" and (len(t) < 5 or t[4] == "0"))
 
 
 def weight(op):
     t = op.split()
-    return (1 << int(t[1])) if t[0] == "pairs" else 1
+    if t[0] in ("mask", "test"):
+        return 1
+    if t[0] == "pairs":
+        return 1 << int(t[1])
+    if t[0] == "bits":
+        return int(t[1])
+    return 1
 
 
 def refine(op):
@@ -35,73 +62,233 @@ def refine(op):
     if t[0] == "pairs":
         n = int(t[1])
         return [f"pair {t[1]} {t[2]} {t[3]} {b}" for b in range(1 << n)]
+    if t[0] == "bits":
+        return [f"bit {t[1]} {t[2]} {t[3]} {i}" for i in range(int(t[1]))]
     return None
 
 
-def rand_expr(rng, n, depth):
+def nwords(n, w):
+    return (n + w - 1) // w
+
+
+def raw_token(n, w, m, dirty=0):
+    """A<x0>.<x1>... for the set m; `dirty` is or-ed into the padding of the last word."""
+    ws = [(m >> (k * w)) & ((1 << w) - 1) for k in range(nwords(n, w))]
+    if n % w:
+        pad = ((1 << w) - 1) ^ ((1 << (n % w)) - 1)
+        ws[-1] |= dirty & pad
+    return "A" + ".".join(str(x) for x in ws)
+
+
+def positions(n):
+    """first / last position, both sides of every storage word boundary"""
+    return sorted({p for p in (0, 1, 6, 7, 8, 9, 15, 16, 17, 31, 32, 33, 62, 63, n - 2, n - 1) if 0 <= p < n})
+
+
+def family(n, full_family, rng=None):
+    """structured subsets of an n-element enum"""
+    full = (1 << n) - 1
+    alt = int("55" * 8, 16) & full
+    pos = list(range(n)) if full_family else positions(n)
+    s = [0, full, alt, full ^ alt]
+    s += [1 << i for i in pos]
+    s += [full ^ (1 << i) for i in pos]
+    s += [(1 << k) - 1 for k in pos if k > 0]
+    s += [full ^ ((1 << k) - 1) for k in pos if k > 0]
+    s += [(0xFF << (8 * k)) & full for k in range((n + 7) // 8)]
+    if rng is not None:
+        s += [rng.below(1 << n) for _ in range(6)]
+    out, seen = [], set()
+    for x in s:
+        if x not in seen:
+            seen.add(x)
+            out.append(x)
+    return out
+
+
+def rand_leaf(rng, n, w):
+    k = rng.below(12)
+    if k < 4:
+        return [f"L{rng.below(1 << n)}"]
+    if k < 7:
+        return [f"I{rng.below(1 << n)}"]
+    if k < 9:
+        return ["D" + ".".join(str(rng.below(n)) for _ in range(rng.range(1, 8) if rng.chance(2, 3) else rng.range(9, 64)))]
+    if k < 11:
+        return [raw_token(n, w, rng.below(1 << n), rng.below(1 << w) if rng.chance(1, 4) else 0)]
+    return [rng.choice(["N", "Z"])]
+
+
+def rand_unary(rng, n, w):
+    k = rng.below(16)
+    i = rng.below(n)
+    if k < 3:
+        return "~"
+    if k < 9:
+        return rng.choice("SUTFOo") + str(i)
+    if k < 10:
+        return f"M{i}.{rng.below(2)}"
+    if k < 11:
+        return f"C{i}.{rng.below(n)}.{rng.below(2)}"
+    if k < 12:
+        kk = rng.below(nwords(n, w))
+        x = rng.below(1 << w)
+        if kk == nwords(n, w) - 1 and n % w and not rng.chance(1, 4):
+            x &= (1 << (n % w)) - 1
+        return f"W{kk}.{x}"
+    return rng.choice(["|@", "&@", "^@", "|2", "&2", "^2", "=@"])
+
+
+def rand_expr(rng, n, w, depth):
     """RPN tokens of a random expression tree."""
     if depth == 0 or rng.chance(1, 5):
-        m = rng.below(1 << n)
-        return [("L" if rng.chance(2, 3) else "I") + str(m)]
+        return rand_leaf(rng, n, w)
     k = rng.below(10)
-    if k < 2:
-        return rand_expr(rng, n, depth - 1) + ["~"]
     if k < 4:
-        return rand_expr(rng, n, depth - 1) + [("S" if rng.chance(1, 2) else "U") + str(rng.below(n))]
-    op = rng.choice(["|", "&", "^"])
-    return rand_expr(rng, n, depth - 1) + rand_expr(rng, n, depth - 1) + [op]
+        return rand_expr(rng, n, w, depth - 1) + [rand_unary(rng, n, w)]
+    op = rng.choice(["|", "&", "^", "|=", "&=", "^="])
+    return rand_expr(rng, n, w, depth - 1) + rand_expr(rng, n, w, depth - 1) + [op]
 
 
-def equivalent_variant(rng, n, toks):
-    """An expression denoting the same set, computed differently (De Morgan, double complement, xor with all)."""
-    k = rng.below(4)
+def equivalent_variant(rng, n, w, toks):
+    """An expression denoting the same set, computed differently (De Morgan, double complement, xor with all, self-or ...)."""
+    k = rng.below(7)
     full = (1 << n) - 1
     if k == 0:
         return toks + ["~", "~"]
     if k == 1:
         return toks + ["~", f"L{full}", "^"]          # ~x ^ all = x
     if k == 2:
-        return toks + [f"I{full}", "&"]
-    return toks + ["L0", "|"]
+        return toks + [f"I{full}", "&="]
+    if k == 3:
+        return toks + ["L0", "|"]
+    if k == 4:
+        return toks + ["|@", "&2"]
+    if k == 5:
+        return toks + [raw_token(n, w, full), "&"]
+    return ["N"] + toks + ["^="]
+
+
+def two_step_programs(n, w, small):
+    """all programs  leaf op op  over the whole interface (op = unary operation, or binary operator with a second leaf)"""
+    full = (1 << n) - 1
+    alt = int("55" * 8, 16) & full
+    pos = positions(n)
+    if small:
+        pos = sorted({0, min(w, n) - 1, min(w, n - 1), n - 1})
+    last = n - 1
+    leaves = ["N", f"L{full}", f"I{alt}", f"D{last}.{last}.0", raw_token(n, w, full ^ alt)]
+    if n > 8:
+        leaves.append("D" + ".".join(str(i) for i in reversed(range(n))))   # the whole enum, descending, one initializer list
+    if n % w:
+        leaves.append(raw_token(n, w, alt, (1 << w) - 1))   # dirty padding
+    un = ["~", "|@", "&@", "^@", "|2", "&2", "^2", "=@"]
+    for p in pos:
+        un += [f"S{p}", f"U{p}", f"T{p}", f"F{p}", f"O{p}", f"o{p}", f"M{p}.0", f"M{p}.1"]
+        q = pos[(pos.index(p) + 1) % len(pos)]
+        un += [f"C{p}.{q}.0", f"C{p}.{q}.1"]
+    un += [f"W{nwords(n, w) - 1}.{(1 << (n % w or w)) - 1}", "W0.0"]
+    steps = [[u] for u in un] + [[l, b] for l in (leaves if not small else leaves[:3] + leaves[-1:]) for b in ("|", "&", "^", "|=", "&=", "^=")]
+    progs = []
+    for l in leaves:
+        for s1 in steps:
+            for s2 in steps:
+                progs.append([l] + s1 + s2)
+    return progs
 
 
 def batches(rng, tier):
     thorough = tier == "thorough"
+    # fcppt::bit::shifted_mask / test for every shift count of every word type
+    ops = [f"mask {w} {k}" for w in WORDS for k in range(w)]
+    for w in WORDS:
+        allw = (1 << w) - 1
+        for k in range(w):
+            for x in (0, allw, 1 << k, allw ^ (1 << k), int("55" * 8, 16) & allw, int("AA" * 8, 16) & allw):
+                ops.append(f"test {w} {x} {k}")
+    yield Batch("bit-mask-test", ops, exhaustive=True, note="shifted_mask<W>(k), test(x, shifted_mask<W>(k)) for all k < digits(W)")
     # exhaustive pairs of subsets
     for n in SIZES:
         words = WORDS if (thorough or n <= 5) else [8, 32] if n == 8 else [8, 64]
         ops = [f"pairs {n} {w} {a}" for w in words for a in range(1 << n)]
         yield Batch(f"pairs-n{n}", ops, exhaustive=True, note=f"all pairs of subsets, words {words}")
-    # n = 17: sampled A, all B would be 2^17 per A -> sample single pairs
+    # every single-bit write on every subset
+    for n in SIZES:
+        ops = [f"bits {n} {w} {a}" for w in WORDS for a in range(1 << n)]
+        yield Batch(f"bits-n{n}", ops, exhaustive=True, note="every way of writing every bit to true/false on every subset, restore")
+    # large enums: structured families
+    r = rng.fork("big")
+    for n in BIG:
+        fam = family(n, thorough, r)
+        ops = [f"bits {n} {w} {a}" for w in WORDS for a in (fam if thorough else family(n, False))]
+        yield Batch(f"bits-n{n}", ops, note="single-bit writes on the structured family")
+        ops = [f"pair {n} {w} {a} {b}" for w in WORDS for a in fam for b in fam]
+        full = (1 << n) - 1
+        bases = [0, full, int("55" * 8, 16) & full, r.below(1 << n)]
+        for w in WORDS:
+            for base in bases:
+                for i in range(n):
+                    ops.append(f"pair {n} {w} {base} {base ^ (1 << i)}")
+                    ops.append(f"pair {n} {w} {base ^ (1 << i)} {base}")
+        yield Batch(f"pair-n{n}-family", ops, note=f"all pairs of {len(fam)} structured subsets + one-bit differences at every position")
+    # sampled pairs
     r = rng.fork("n17")
-    cnt = 4000 if thorough else 600
+    cnt = 6000 if thorough else 900
     ops = []
     for _ in range(cnt):
-        a = r.below(1 << 17) if r.chance(3, 4) else r.choice([0, (1 << 17) - 1, 1 << 16, (1 << 16) - 1, 0xFF, 0xFF00, 0x10000])
-        b = r.below(1 << 17) if r.chance(3, 4) else r.choice([0, (1 << 17) - 1, a, a ^ ((1 << 17) - 1)])
-        ops.append(f"pair 17 {r.choice(WORDS)} {a} {b}")
-    yield Batch("pair-n17-sampled", ops, note="random and boundary subsets of a 17-element enum")
+        n = r.choice(BIG)
+        full = (1 << n) - 1
+        a = r.below(1 << n) if r.chance(3, 4) else r.choice([0, full, 1 << (n - 1), (1 << (n - 1)) - 1, 0xFF, 0xFF00, 0x10000])
+        b = r.below(1 << n) if r.chance(3, 4) else r.choice([0, full, a, a ^ full])
+        ops.append(f"pair {n} {r.choice(WORDS)} {a} {b}")
+    yield Batch("pair-big-sampled", ops, note="random and boundary subsets of 17-, 33- and 64-element enums")
+    # raw arrays: every one-byte array (all padding patterns) against every set; two-word arrays with every last word
+    ops = []
+    for x in range(256):
+        for m in ([x & 7] if not thorough else range(8)):
+            ops.append(f"expr 3 8 A{x} ; L{m}")
+        ops.append(f"expr 3 8 A{x} ~ ~ ; A{x} N |")
+        ops.append(f"expr 5 8 A{x} ; I{x & 31} W0.{x}")
+        ops.append(f"expr 8 8 A{x} ; L{x}")
+        for x0 in (0, 255, 0x55):
+            ops.append(f"expr 9 8 A{x0}.{x} ; L{x0 | ((x & 1) << 8)}")
+            ops.append(f"expr 9 8 A{x0}.{x} ~ ; L{x0 | ((x & 1) << 8)} ~")
+    yield Batch("expr-raw-arrays", ops, exhaustive=True, note="every byte as raw array / array() write, clean and dirty padding")
+    # all two-step programs on small scopes
+    cfgs = [(3, 8), (9, 8), (17, 16), (33, 32), (64, 64), (64, 8), (33, 64), (9, 64)]
+    if not thorough:
+        # rotate with the seed: two configurations per quick run, reduced position set
+        k = r.below(len(cfgs))
+        cfgs = [(9, 8), cfgs[k] if cfgs[k] != (9, 8) else (33, 32)]
+    for (n, w) in cfgs:
+        progs = two_step_programs(n, w, small=not thorough)
+        if len(progs) % 2:
+            progs.append(progs[0])
+        ops = [f"expr {n} {w} " + " ".join(progs[i]) + " ; " + " ".join(progs[i + 1]) for i in range(0, len(progs), 2)]
+        yield Batch(f"expr-two-step-n{n}w{w}", ops, exhaustive=True, note="all programs leaf.op.op over the whole interface")
     # random expression trees to depth 6, second operand either independent or an equivalent variant
     r = rng.fork("expr")
-    cnt = 6000 if thorough else 1200
+    cnt = 8000 if thorough else 1600
     ops = []
     for _ in range(cnt):
-        n = r.choice([1, 3, 5, 8, 9, 17])
+        n = r.choice([1, 3, 5, 8, 9, 17, 33, 64])
         w = r.choice(WORDS)
-        e1 = rand_expr(r, n, r.range(1, 6))
-        e2 = equivalent_variant(r, n, e1) if r.chance(1, 2) else rand_expr(r, n, r.range(1, 6))
+        e1 = rand_expr(r, n, w, r.range(1, 6))
+        e2 = equivalent_variant(r, n, w, e1) if r.chance(1, 2) else rand_expr(r, n, w, r.range(1, 6))
         ops.append(f"expr {n} {w} " + " ".join(e1) + " ; " + " ".join(e2))
     yield Batch("expr-trees", ops, note="random expression trees, depth <= 6; half of the right-hand sides are equal sets computed differently")
 
 MANIFEST = {
     "level_text": ("Machine-checked proof (Lean 4) over an executable model that mirrors the bitfield templates word by word: for every enum "
-                   "size n, every word width w >= 1 and every expression built from initializer lists, init, set and | & ^ ~, the "
-                   "model's get/==/!=/is_subset_eq/hash are those of the denoted set (eval_spec, eq_iff_same_set, hash_eq_of_same_set, "
-                   "isSubsetEq_iff); the padding invariant is proved preserved by every operation. The model is tied to the code by a "
-                   "differential correspondence that is exhaustive over all pairs of subsets for n in {1,3,5,8,9} and sampled for n=17 "
-                   "and expression trees."),
+                   "size n, every word width w >= 1 and every expression built from initializer lists, init, raw arrays, set / operator[] / "
+                   "|= index, array() writes and | & ^ ~ (and assigning forms), the model's get/==/!=/is_subset_eq/hash/underlying_value/"
+                   "operator<< are those of the denoted set (eval_spec, eq_iff_same_set, hash_eq_of_same_set, isSubsetEq_iff, "
+                   "underlyingValue_spec, output_spec); the padding invariant is proved preserved by every operation and re-established by ~ "
+                   "and init from any array; same object on both sides, set/restore and write commutation are theorems. The model is tied to "
+                   "the code by a differential correspondence that compares storage words and exact hash values, exhaustive over all pairs "
+                   "of subsets and all single-bit writes for n in {1,3,5,8,9}, structured for n in {17,33,64}, plus all two-step programs."),
     "level_note": ("Trusted: Lean kernel + propext/Classical.choice/Quot.sound; the hand-written model's fidelity outside the exercised "
-                   "inputs; harness and digest protocol; hash_combine/std::hash uninterpreted. No sorry/axiom/native_decide."),
+                   "inputs; harness and digest protocol; hash_combine/std::hash uninterpreted in the theorems. No sorry/axiom/native_decide."),
     "technique": "Lean 4 proof over hand-written executable model + exhaustive differential correspondence (ASan/UBSan harness)",
     "design_ref": "DESIGN.md §5 C10",
 }
